@@ -1,6 +1,6 @@
 (* Property C02 — keys, uniqueness, checks and foreign keys land on the right columns (output-layer part). *)
 From Coq Require Import String Ascii List ZArith NArith Bool.
-From SDP Require Import Base PyStr Actions Output OutputProofs.
+From SDP Require Import Base PyStr Lexer Actions Parse Engine Seq Entity Output OutputProofs Table TableProofs TableOutProofs.
 Import ListNotations.
 Open Scope string_scope.
 
@@ -28,6 +28,38 @@ Theorem C02_alter_unique_multi_flags_nothing : forall t stmt u ucols cols,
   set_unique_columns_from_alter t stmt = Ok t.
 Proof. exact alter_unique_multi_never_flags. Qed.
 Print Assumptions C02_alter_unique_multi_flags_nothing.
+
+(* ---------- inline declarations, lexemes to reported table (parser stage + output stage, mode sql) ----------------------
+   For EVERY statement of the core CREATE TABLE fragment (Spec/Table.v: any number of columns, any number / order / repetition of
+   inline NULL, NOT NULL, DEFAULT, PRIMARY KEY, UNIQUE, REFERENCES options; see Props/C01.v) the reported table is [final_table]:
+   - primary_key is exactly the ordered list of the columns declared PRIMARY KEY inline ([pk_of_spec]);
+   - every such column is reported non-nullable whatever its other options said;
+   - a column is flagged unique iff an inline UNIQUE was among its options; its reference (if any) is the one declared on it,
+     with the schema, table, column and ON DELETE / ON UPDATE actions as written (the [cstate] computed by [apply_opt]);
+   - one column entry per declared column, in order. *)
+Theorem C02_inline_keys_end_to_end : forall t norm silent, Table.wf norm t = true -> nms norm (t_name t) <> "" ->
+  parse_lexemes norm silent (Table.lexemes t) = Ok (Some (Table.denote norm t)) /\
+  Output.format "sql" false [Table.denote norm t]
+  = Ok (PList [PDict (final_table (onm norm (t_schema t)) (PStr (nms norm (t_name t))) (cds norm t))]).
+Proof. exact table_parse_and_format. Qed.
+Print Assumptions C02_inline_keys_end_to_end.
+
+Theorem C02_reported_key_is_the_declared_one : forall l : list cd,
+  pk_of l = map (fun x => PStr (cd_name x)) (filter (fun x => cs_pk (cd_cs x)) l).
+Proof. exact pk_of_spec. Qed.
+Print Assumptions C02_reported_key_is_the_declared_one.
+
+Theorem C02_key_columns_not_nullable : forall (l : list cd) x, In x l -> cs_pk (cd_cs x) = true ->
+  exists d, final_col (pk_of l) x = PDict d /\ dict_get d "nullable" = Some (PBool false).
+Proof. exact pk_col_not_nullable. Qed.
+Print Assumptions C02_key_columns_not_nullable.
+
+Theorem C02_column_entry_fields : forall pk x, exists d, final_col pk x = PDict d /\
+  dict_get d "name" = Some (PStr (cd_name x)) /\ dict_get d "type" = Some (PStr (cd_ty x)) /\ dict_get d "size" = Some (cd_sz x) /\
+  dict_get d "unique" = Some (PBool (cs_unique (cd_cs x))) /\ dict_get d "default" = Some (cs_default (cd_cs x)) /\
+  dict_get d "references" = Some (cs_refs (cd_cs x)) /\ dict_has d "primary_key" = false.
+Proof. exact final_col_fields. Qed.
+Print Assumptions C02_column_entry_fields.
 
 (* non-vacuity / the whole pipeline of the output layer on a table with every kind of key declaration:
    inline PK + named multi-column unique + unnamed single unique: pk exact, pk columns non-nullable,
